@@ -80,9 +80,22 @@ def w4_stream(rng, k, K):
 
 
 def as_user_number(rng, v):
-    """whole-valued keyword arguments are sometimes passed as python ints (users write max_tau=2, MRTS=10)"""
-    if isinstance(v, float) and v.is_integer() and abs(v) < 1e9 and rng.random() < 0.5:
-        return int(v)
+    """whole-valued keyword arguments are sometimes passed as python ints (users write max_tau=2, MRTS=10) or as numpy
+    scalars of another type (np.int64 from an array, np.float32 from a file) - always with exactly the same numeric value"""
+    if not isinstance(v, float):
+        return v
+    r = rng.random()
+    if v.is_integer() and abs(v) < 1e9:
+        if r < 0.35:
+            return int(v)
+        if r < 0.5:
+            return np.int64(v)
+        if r < 0.55:
+            return np.int32(v)
+    if r > 0.9 and float(np.float32(v)) == v:
+        return np.float32(v)
+    if r > 0.85:
+        return np.float64(v)
     return v
 
 
@@ -180,10 +193,14 @@ def pair_classes(ctx, case):
     if "max_tau" in kw:
         mt = kw["max_tau"]
         ctx.count("max_tau_none" if mt is None else "max_tau_zero" if mt == 0 else "max_tau_positive")
-        if isinstance(mt, int) and mt > 0:
+        if isinstance(mt, (int, np.integer)) and not isinstance(mt, bool) and mt > 0:
             ctx.count("max_tau_python_int")
-    if isinstance(kw.get("MRTS"), int) and kw["MRTS"] > 0:
+        if isinstance(mt, np.generic):
+            ctx.count("max_tau_numpy_scalar")
+    if isinstance(kw.get("MRTS"), (int, np.integer)) and kw["MRTS"] > 0:
         ctx.count("mrts_python_int")
+    if isinstance(kw.get("MRTS"), np.generic):
+        ctx.count("mrts_numpy_scalar")
     w = gen.word_of(tr, ts, te) + "|" + repr(sorted((k, gen.size_class(0) if v is None else v) for k, v in kw.items()
                                                     if k in ("RI",)))
     ctx.word(w + "|" + mrts_regime(case), gen.nontrivial_pair(tr))
